@@ -38,6 +38,45 @@ def sha(text: str) -> str:
     return hashlib.sha256(text.encode()).hexdigest()[:16]
 
 
+class BlockedWatch:
+    """Deadlock detector.  The step counter is the simulator's clock; when a call makes no step AND the
+    process consumes no CPU for three consecutive 10 s ticks, nothing is runnable and no event is pending:
+    the call is blocked for good (a lock that is never released, a read that nobody will answer).  That is
+    reported as outcome DIVERGED:blocked, deterministically, instead of waiting for the harness timeout.
+    A long computation inside a dependency burns CPU and is never mistaken for this."""
+
+    TICK = 10.0
+
+    def __init__(self, steps):
+        import signal
+        import time
+
+        self.steps = steps
+        self.time = time
+        self.last = (-1, 0.0)
+        self.idle = 0
+        self.fired = 0
+        signal.signal(signal.SIGALRM, self._tick)
+        signal.setitimer(signal.ITIMER_REAL, self.TICK, self.TICK)
+
+    def _tick(self, _sig, _frm):
+        from sim.monitor import Diverged
+
+        if self.steps is None or not self.steps.active:
+            self.idle = 0
+            return
+        now = (self.steps.n, self.time.process_time())
+        if now[0] == self.last[0] and now[1] - self.last[1] < 0.05:
+            self.idle += 1
+        else:
+            self.idle = 0
+        self.last = now
+        if self.idle >= 3:
+            self.idle = 0
+            self.fired += 1
+            raise Diverged("blocked")
+
+
 class Env:
     """everything an operation needs"""
 
@@ -62,6 +101,7 @@ class Env:
         self.Predicate = Predicate
         mon = job.get("monitor", {})
         self.steps = StepMonitor() if mon.get("steps", True) else None
+        self.watch = BlockedWatch(self.steps) if self.steps is not None else None
         self.tracer = LoopTracer(job.get("iter_cap", 100)) if mon.get("loop", True) else None
         self.faults = SympyFaults() if job.get("use_faults") else None
         self.step_cap = int(job.get("step_cap", 50_000_000))
@@ -416,6 +456,10 @@ def main(argv):
         )
         collect = job["world"].get("G") == "collect"
         for i, op in enumerate(job["ops"]):
+            if env.watch is not None and env.watch.fired >= 2:
+                # the process is blocked for good; do not wait half a minute for every remaining operation
+                emit({"i": i, "op": op["op"], "t": op.get("t"), "outcome": "SKIPPED:process-blocked"})
+                continue
             try:
                 ev = OPS[op["op"]](env, op)
             except Exception as exc:  # pylint: disable=broad-exception-caught
@@ -432,6 +476,11 @@ def main(argv):
             if collect:
                 gc.collect()
         emit({"i": len(job["ops"]), "op": "end"})
+    # the interval timer must not outlive the handler: python restores SIG_DFL while it finalises
+    import signal
+
+    signal.setitimer(signal.ITIMER_REAL, 0)
+    signal.signal(signal.SIGALRM, signal.SIG_IGN)
     return 0
 
 
